@@ -104,8 +104,17 @@ static std::string sanitize(const std::string &w)
   return s;
 }
 
+// wsurf: the traversal below is also used to find one surface of a world by its key
+static std::string wanted_surface_key;
+static const Objects::Surface *wanted_surface = nullptr;
+
 static void dump_surface(std::string &out, const std::string &key, const Objects::Surface &s)
 {
+  if (!wanted_surface_key.empty())
+    {
+      if (key == wanted_surface_key) wanted_surface = &s;
+      return;
+    }
   out += " S " + key + " " + (s.constant_value ? "1" : "0") + " " + hx(s.minimum) + " " + hx(s.maximum);
   out += " " + std::to_string(s.constant_value ? 0 : s.triangles.size());
   if (!s.constant_value)
@@ -242,6 +251,21 @@ static std::string run(const std::string &line)
       for (size_t i = 0; i < w.parameters.features.size(); ++i)
         dump_feature_surfaces(out, "features/" + std::to_string(i), w.parameters.features[i].get());
       return out;
+    }
+  if (cmd == "wsurf")
+    {
+      // wsurf <slot> <key> <c|s> px py : Surface::local_value on the surface the world itself built from its file
+      int slot; std::string key, cs; in >> slot >> key >> cs;
+      World &w = *worlds.at(slot);
+      wanted_surface_key = key; wanted_surface = nullptr;
+      std::string dummy;
+      for (size_t i = 0; i < w.parameters.features.size(); ++i)
+        dump_feature_surfaces(dummy, "features/" + std::to_string(i), w.parameters.features[i].get());
+      wanted_surface_key.clear();
+      if (wanted_surface == nullptr) return "error no-such-surface";
+      double px = rd(in), py = rd(in);
+      auto r = wanted_surface->local_value(Point<2>(px, py, cs == "s" ? spherical : cartesian));
+      return vec({r.interpolated_value});
     }
   if (cmd == "surf")
     {
